@@ -281,9 +281,12 @@ func (m *Model) Plan(op *Op) *Exp {
 		}
 		if changed != 0 {
 			x.Post[op.E] = st
+			// the property quantifies over the *changed* relation set: a relation that is named with its current
+			// target is not part of the transition, observers of it must not fire
+			_ = named
 			x.Events = append(x.Events,
-				MEvent{Ev: EvRemoveRel, E: op.E, Changed: changed, ChangedMax: named, Ctx: st.Mask, Exists: true},
-				MEvent{Ev: EvAddRel, E: op.E, Changed: changed, ChangedMax: named, Ctx: st.Mask, Exists: true})
+				MEvent{Ev: EvRemoveRel, E: op.E, Changed: changed, ChangedMax: changed, Ctx: st.Mask, Exists: true},
+				MEvent{Ev: EvAddRel, E: op.E, Changed: changed, ChangedMax: changed, Ctx: st.Mask, Exists: true})
 		} else {
 			x.Unchanged = map[EID]bool{op.E: true}
 		}
@@ -345,8 +348,9 @@ func (m *Model) Plan(op *Op) *Exp {
 				continue
 			}
 			x.Post[id] = st
-			before = append(before, MEvent{Ev: EvRemoveRel, E: id, Changed: changed, ChangedMax: named, Ctx: st.Mask, Exists: true})
-			after = append(after, MEvent{Ev: EvAddRel, E: id, Changed: changed, ChangedMax: named, Ctx: st.Mask, Exists: true})
+			_ = named
+			before = append(before, MEvent{Ev: EvRemoveRel, E: id, Changed: changed, ChangedMax: changed, Ctx: st.Mask, Exists: true})
+			after = append(after, MEvent{Ev: EvAddRel, E: id, Changed: changed, ChangedMax: changed, Ctx: st.Mask, Exists: true})
 		}
 		x.Events = append(before, after...)
 	case KRemoveEntities:
